@@ -872,6 +872,8 @@ static void sweep(bool nested)
 						run(sc, sc->script);
 						after_run(sc, vh_mix(vh_mix(vh_mix(vh_mix(0x62, si), (uint64_t)ii), p), qn));
 						VH_COUNT("nested_pair_placements");
+						if (vh_want_sample() && (p * 31 + qn) % 97 == 11 && evlog.n < 700)
+							vh_sample("%s | %s", scen, evlog.b);
 					}
 				}
 			}
